@@ -221,8 +221,10 @@ class Machine:
         if kind == "blocker":
             cp, b = self.cp_for_blocker(step[1]), w.blockers[step[2]]
 
+            bkey = step[3] if len(step) > 3 else b.key
+
             def call(st):
-                st.add_blocker(cp, b, key=b.key)
+                st.add_blocker(cp, b, key=bkey)
                 return None     # the blocker stays registered whatever it hit
             return call
         if kind == "unblock":
@@ -354,6 +356,13 @@ def candidates(m, rng):
                 groups.setdefault(kind, []).append(s)
     owners = [m.w.lab(p) for p in m.st.pkg_choices] + list(w.pkgs)
     groups["blocker"] = [["blocker", rng.choice(owners), b] for b in BLOCKERS]
+    # a blocker may be filed under a key other than its own (merge_plan passes key= explicitly; it always passes the
+    # same key for the same blocker, so the foreign key is a fixed function of the blocker): an optional 4th
+    # element names that key - the key of some package of the world - for every third blocker
+    labs = sorted(w.pkgs)
+    for i, s in enumerate(groups["blocker"]):
+        if i % 3 == 1:
+            s.append(w.pkgs[labs[(i * 5) % len(labs)]].key)
     groups["hardref"] = [["hardref", h] for h in HARDREFS]
     bt = [["backtrack", i] for i in range(len(m.boundaries)) if m.applicable(["backtrack", i])]
     if bt:
